@@ -72,7 +72,14 @@ func (r *Run) Fail(prop, what, input string) {
 	if len(input) > 4000 {
 		input = input[:4000] + "…(truncated; the trace file has the full history)"
 	}
-	if len(r.Failures) < 20 {
+	// at most 6 per property (so that one noisy monitor cannot crowd out another property's report)
+	n := 0
+	for _, f := range r.Failures {
+		if f.Property == prop {
+			n++
+		}
+	}
+	if n < 6 && len(r.Failures) < 60 {
 		r.Failures = append(r.Failures, Failure{Property: prop, What: what, Input: input})
 	}
 }
